@@ -1,7 +1,148 @@
 /-
-  C12 — property theorems (see DESIGN.md §5 C12).
+  C12 — checksums: the hashing writers/readers pass the bytes through unchanged and every
+  hasher sees exactly the stream, whatever the chunking, subset and order of algorithms;
+  an unknown algorithm is an error; the verifier of a file hash accepts exactly the streams
+  whose digest under the entry's own algorithm is the recorded one.
+  `H : Digest` is the external digest function (see Model/Hashio.lean).
+  Property theorems only; lemmas live in GoDebian/Lemmas/Hashio.lean.
 -/
 import GoDebian.Model.Hashio
+import GoDebian.Lemmas.Hashio
 
 namespace GoDebian.Props.C12
+open GoDebian GoDebian.Hashio
+
+/-- a toy digest for the satisfiability examples: (length of the algorithm name, sum of the
+    message bytes mod 256, message length mod 256) -/
+private def toyH : Digest := fun n m => [n.length, m.foldl (· + ·) 0 % 256, m.length % 256]
+
+/-- Bytes pass through unchanged; every hasher has seen exactly the stream, whatever the
+    chunking, subset and order of algorithms. -/
+theorem C12_passthrough (names chunks : List Bytes) (p : Pipe) (h : run names chunks = .ok p) :
+    p.target = chunks.flatten ∧ p.hashers.map (·.name) = names ∧
+      ∀ x ∈ p.hashers, x.fed = chunks.flatten ∧ x.size = chunks.flatten.length :=
+  Lemmas.Hashio.run_passthrough h
+
+/-- Satisfiable: sha512 before md5, md5 twice, sha1 and sha256 absent; an empty chunk in the
+    middle. -/
+example :
+    let B := Bytes.ofString
+    run [B "sha512", B "md5", B "md5"] [B "he", [], B "llo\n"]
+      = .ok ⟨[⟨B "sha512", B "hello\n", 6⟩, ⟨B "md5", B "hello\n", 6⟩, ⟨B "md5", B "hello\n", 6⟩],
+             B "hello\n"⟩ := by
+  decide +kernel
+
+/-- The sums reported are the digests of the whole stream, one per requested name, in the
+    requested order. -/
+theorem C12_sums (H : Digest) (names chunks : List Bytes) (p : Pipe)
+    (h : run names chunks = .ok p) :
+    p.hashers.map (·.sum H) = names.map (fun n => H n chunks.flatten) :=
+  Lemmas.Hashio.run_sums H h
+
+example :
+    let B := Bytes.ofString
+    (run [B "sha256", B "sha1"] [B "ab", B "c"]).toOption.map (fun p => p.hashers.map (·.sum toyH))
+      = some [[6, 38, 3], [4, 38, 3]] := by
+  decide +kernel
+
+/-- Two chunkings of the same stream leave the pipe in the same state. -/
+theorem C12_chunking_irrelevant (names c1 c2 : List Bytes) (p1 p2 : Pipe)
+    (hf : c1.flatten = c2.flatten) (h1 : run names c1 = .ok p1) (h2 : run names c2 = .ok p2) :
+    p1 = p2 :=
+  Lemmas.Hashio.run_chunking hf h1 h2
+
+example :
+    let B := Bytes.ofString
+    [B "he", [], B "llo\n"] ≠ [B "hello", B "\n"] ∧
+    [B "he", [], B "llo\n"].flatten = [B "hello", B "\n"].flatten ∧
+    (run [B "sha1", B "md5"] [B "he", [], B "llo\n"]).toOption.isSome = true ∧
+    (run [B "sha1", B "md5"] [B "hello", B "\n"]).toOption.isSome = true := by
+  decide +kernel
+
+/-- An unknown algorithm name anywhere in the list is an error, and nothing else is. -/
+theorem C12_unknown_algorithm (names chunks : List Bytes) :
+    (∃ n ∈ names, supported n = false) ↔ run names chunks = .error .err :=
+  Lemmas.Hashio.run_error_iff names chunks
+
+/-- Both sides occur; names are case-sensitive and "sha224" is not offered. -/
+example :
+    let B := Bytes.ofString
+    supported (B "SHA256") = false ∧ supported (B "sha224") = false ∧ supported [] = false ∧
+    supported (B "md5") = true ∧ supported (B "sha1") = true ∧ supported (B "sha256") = true ∧
+    supported (B "sha512") = true ∧
+    run [B "sha256", B "SHA256"] [B "x"] = .error .err ∧
+    run [] [B "x"] = .ok ⟨[], B "x"⟩ := by
+  decide +kernel
+
+/-- The verifier accepts iff the stream's digest under the entry's own algorithm equals the
+    recorded hash. -/
+theorem C12_verifier (H : Digest) (alg hash data : Bytes) (hs : supported alg = true) :
+    verify H alg hash data = .accept ↔ hexDecode hash = some (H alg data) :=
+  Lemmas.Hashio.verify_accept_iff H alg hash data hs
+
+/-- All verdicts occur: the right hash (in either case of the hex digits), a wrong hash, the
+    right hash under another algorithm's name, an odd-length and a non-hex hash. -/
+example :
+    let B := Bytes.ofString
+    toyH (B "sha1") (B "abc") = [4, 38, 3] ∧
+    verify toyH (B "sha1") (B "042603") (B "abc") = .accept ∧
+    verify toyH (B "sha1") (B "0a2603") (B "abc") = .reject ∧
+    verify toyH (B "sha256") (B "042603") (B "abc") = .reject ∧
+    verify toyH (B "sha1") (B "04260") (B "abc") = .badHex ∧
+    verify toyH (B "sha1") (B "04260g") (B "abc") = .badHex ∧
+    verify (fun _ _ => [171]) (B "md5") (B "aB") [] = .accept := by
+  decide +kernel
+
+/-- An entry with an algorithm the library does not offer is never accepted. -/
+theorem C12_verifier_unsupported (H : Digest) (alg hash data : Bytes)
+    (hs : supported alg = false) : verify H alg hash data = .unsupported :=
+  Lemmas.Hashio.verify_unsupported H alg hash data hs
+
+example :
+    supported (Bytes.ofString "crc32") = false ∧
+    verify toyH (Bytes.ofString "crc32") (Bytes.ofString "052603") (Bytes.ofString "abc")
+      = .unsupported := by
+  decide +kernel
+
+/-- An entry built from a hasher verifies exactly the streams with the hasher's digest
+    (digests are byte strings: all entries below 256). -/
+theorem C12_from_hasher (H : Digest) (path : Bytes) (h : Hasher) (data : Bytes)
+    (hs : supported h.name = true) (hb : ∀ b ∈ H h.name h.fed, b < 256) :
+    verify H h.name (fileHashFromHasher H path h).hash data = .accept ↔
+      H h.name data = H h.name h.fed :=
+  Lemmas.Hashio.verify_from_hasher H path h data hs hb
+
+/-- Satisfiable, and the entry carries the hasher's algorithm, lower-case hex digest, byte
+    count and the given path. -/
+example :
+    let B := Bytes.ofString
+    let h : Hasher := ⟨B "sha256", B "hello\n", 6⟩
+    supported h.name = true ∧ (∀ b ∈ toyH h.name h.fed, b < 256) ∧
+    toyH h.name h.fed = [6, 30, 6] ∧
+    fileHashFromHasher toyH (B "a/b.deb") h = ⟨B "sha256", B "061e06", 6, B "a/b.deb", [], [], []⟩ ∧
+    verify toyH h.name (fileHashFromHasher toyH (B "a/b.deb") h).hash (B "\nolleh") = .accept ∧
+    verify toyH h.name (fileHashFromHasher toyH (B "a/b.deb") h).hash (B "hello") = .reject := by
+  decide +kernel
+
+/-- The byte-range hypothesis cannot be dropped from the model-level statement: `%x` of a
+    value ≥ 256 is not two hex digits (real digests are bytes, so this is about the
+    parameter `H` only). -/
+example :
+    let H : Digest := fun _ _ => [256]
+    let h : Hasher := ⟨Bytes.ofString "md5", [], 0⟩
+    ¬ (verify H h.name (fileHashFromHasher H [] h).hash [] = .accept ↔
+        H h.name [] = H h.name h.fed) := by
+  decide +kernel
+
+/-- `BestChecksums.Checksums()`: the SHA-256 list if it is non-empty, else the SHA-512 list. -/
+theorem C12_best (a b : List Codec.FileHash) : bestChecksums a b = if a.isEmpty then b else a :=
+  Lemmas.Hashio.bestChecksums_eq a b
+
+example :
+    let x : Codec.FileHash := ⟨Bytes.ofString "sha256", [48, 48], 1, [97], [], [], []⟩
+    let y : Codec.FileHash := ⟨Bytes.ofString "sha512", [49, 49], 1, [97], [], [], []⟩
+    bestChecksums [x] [y] = [x] ∧ bestChecksums [] [y] = [y] ∧
+    bestChecksums ([] : List Codec.FileHash) [] = [] := by
+  decide +kernel
+
 end GoDebian.Props.C12
